@@ -283,6 +283,11 @@ func (sched *StdScheduler) ScheduleJob(
 		return newIllegalArgumentError("trigger is nil")
 	}
 
+	// the suspended flag of a job that is scheduled again may be changed by
+	// PauseJob and ResumeJob: read it under the lock
+	sched.queueLocker.Lock()
+	defer sched.queueLocker.Unlock()
+
 	nextRunTime := int64(math.MaxInt64)
 	var err error
 	if !jobDetail.opts.Suspended {
@@ -296,9 +301,6 @@ func (sched *StdScheduler) ScheduleJob(
 		trigger:  trigger,
 		priority: nextRunTime,
 	}
-
-	sched.queueLocker.Lock()
-	defer sched.queueLocker.Unlock()
 
 	if err = sched.queue.Push(toSchedule); err == nil {
 		sched.logger.Debug("Successfully added job", "key", jobDetail.jobKey.String())
